@@ -10,6 +10,7 @@ import (
 	"time"
 
 	"github.com/gogo/protobuf/proto"
+	abci "github.com/tendermint/tendermint/abci/types"
 	cfg "github.com/tendermint/tendermint/config"
 	"github.com/tendermint/tendermint/libs/log"
 	mempl "github.com/tendermint/tendermint/mempool"
@@ -148,6 +149,17 @@ func TestProposerBlock(t *testing.T) {
 		maxBytes := types.MaxOverheadForBlock + types.MaxHeaderBytes + types.MaxCommitBytes(nCap) + evMax + slack
 		spec.Params.Block.MaxBytes = maxBytes
 		spec.Params.Evidence.MaxBytes = evMax
+		// Evidence.MaxBytes is only required to be <= Block.MaxBytes: it may exceed what is left of the block next to
+		// header and commit; a correct proposer then has to take less evidence
+		evMode := "fits"
+		if rapid.IntRange(0, 3).Draw(t, "evbudget") == 0 {
+			if lib.IsKnown(findingRoom) {
+				lib.ExcludedByKnown(findingRoom)
+			} else {
+				evMode = "exceeds-room"
+				spec.Params.Evidence.MaxBytes = rapid.Int64Range(evMax, maxBytes).Draw(t, "evparam")
+			}
+		}
 		spec.Params.Block.MaxGas = rapid.SampledFrom([]int64{-1, -1, -1, -1, 40, 100000}).Draw(t, "maxgas")
 		b, err := newBuilt(spec, false, prof, sat)
 		if err != nil {
@@ -209,7 +221,7 @@ func TestProposerBlock(t *testing.T) {
 			reaped := len(blk.Txs)
 			brim := reaped < mp.Size()
 			hdr, _ := proto.Marshal(blk.Header.ToProto())
-			cls := []string{"mode:" + mode, slackClass(limit - size), fmt.Sprintf("brim:%v", brim), fmt.Sprintf("evidence-items:%d", len(blk.Evidence.Evidence))}
+			cls := []string{"mode:" + mode, "evidence-budget:" + evMode, slackClass(limit - size), fmt.Sprintf("brim:%v", brim), fmt.Sprintf("evidence-items:%d", len(blk.Evidence.Evidence))}
 			switch {
 			case nLast > nCur:
 				cls = append(cls, "valset:shrunk")
@@ -286,3 +298,128 @@ func TestProposerBlock(t *testing.T) {
 	})
 }
 
+
+// evListSize: encoded size of the first j items as the evidence section of a block.
+func evListSize(evs []types.Evidence, j int) int64 {
+	var pl tmproto.EvidenceList
+	for _, e := range evs[:j] {
+		pb, err := types.EvidenceToProto(e)
+		if err != nil {
+			panic(err)
+		}
+		pl.Evidence = append(pl.Evidence, *pb)
+	}
+	return int64(pl.Size())
+}
+
+// TestProposerEvidence: the proposer side of the evidence byte limit with the REAL evidence pool. Valid duplicate-vote
+// evidence is pending in the pool; a valid parameter update moves Evidence.MaxBytes to within +-3 bytes of the encoded
+// size of some prefix of the pending list (or anywhere else); the block CreateProposalBlock then builds must pass
+// ValidateBlock and the reference (which re-verifies every item), and carry at most Evidence.MaxBytes of evidence.
+func TestProposerEvidence(t *testing.T) {
+	const name = "TestProposerEvidence"
+	rapid.Check(t, func(t *rapid.T) {
+		o := genOpts{maxVals: 12, evidence: true}
+		spec, prof, sat := genSpec(t, o)
+		spec.Params.Evidence.MaxAgeNumBlocks = 1000 // nothing expires in this test
+		spec.Params.Evidence.MaxBytes = 1 << 20
+		b, err := newBuilt(spec, true, prof, sat)
+		if err != nil {
+			t.Fatalf("genesis rejected: %v", err)
+		}
+		defer b.c.Close()
+		c := b.c
+		pool := c.Exec // executor of the chain: real pool behind it
+		k := rapid.IntRange(1, 4).Draw(t, "k")
+		for i := 0; i < k; i++ {
+			p := b.genPlan(t, fmt.Sprintf("h%d", i), o, "")
+			if p.Params != nil {
+				p.Params.Evidence, p.Params.Block = nil, nil // the evidence parameters are this test's own dimension
+			}
+			if err := b.advance(p); err != nil {
+				t.Fatalf("valid chain could not be extended: %v", err)
+			}
+		}
+		// evidence reaches the pool
+		lp := b.pool
+		want := rapid.IntRange(1, 6).Draw(t, "npending")
+		for i := 0; i < want; i++ {
+			h := rapid.Int64Range(c.Spec.InitialHeight, c.Tip()).Draw(t, "evh")
+			ev := b.makeDupVote(h, rapid.IntRange(0, 200).Draw(t, "evv"), 600+rapid.IntRange(0, 250).Draw(t, "evsalt"), "valid")
+			if b.evSeen[string(ev.Hash())] {
+				continue
+			}
+			if err := lp.AddEvidence(ev); err != nil {
+				t.Fatalf("valid evidence refused by the pool: %v", err)
+			}
+		}
+		pending, _ := lp.PendingEvidence(-1)
+		// move the limit next to a prefix size of the pending list (pool order)
+		cur := c.State.ConsensusParams.Evidence
+		limit := int64(0)
+		near := false
+		switch rapid.SampledFrom([]string{"near", "near", "near", "any", "zero"}).Draw(t, "limitmode") {
+		case "near":
+			j := rapid.Permutation(seq(len(pending) + 1)).Draw(t, "prefixes")[0] // uniform, unlike IntRange
+			limit = evListSize(pending, j) + int64(rapid.IntRange(-3, 3).Draw(t, "delta"))
+			near = true
+		case "any":
+			limit = rapid.Int64Range(0, evListSize(pending, len(pending))+10).Draw(t, "limit")
+		}
+		if limit < 0 {
+			limit = 0
+		}
+		p := b.genPlan(t, "limit", o, "")
+		p.Evidence = nil
+		p.Params = &abci.ConsensusParams{Evidence: &tmproto.EvidenceParams{MaxAgeNumBlocks: cur.MaxAgeNumBlocks, MaxAgeDuration: cur.MaxAgeDuration, MaxBytes: limit}}
+		if err := b.advance(p); err != nil {
+			t.Fatalf("valid chain could not be extended: %v", err)
+		}
+		for step := 0; step < 2; step++ {
+			st := c.State
+			if st.ConsensusParams.Evidence.MaxBytes != limit {
+				t.Fatalf("parameter update not in force: %d != %d", st.ConsensusParams.Evidence.MaxBytes, limit)
+			}
+			h := c.NextHeight()
+			blk, _ := pool.CreateProposalBlock(h, st, c.Commits[h-1], st.Validators.GetProposer().Address)
+			pendingNow, _ := lp.PendingEvidence(-1)
+			got := blk.Evidence.ByteSize()
+			maximal := 0
+			for j := 0; j <= len(pendingNow); j++ {
+				if evListSize(pendingNow, j) <= limit {
+					maximal = j
+				}
+			}
+			lib.Case(name, lib.FP(fmt.Sprintf("%X", blk.Hash()), limit), len(pendingNow) > 0 && near,
+				fmt.Sprintf("pending:%d", len(pendingNow)), fmt.Sprintf("included:%d", len(blk.Evidence.Evidence)),
+				fmt.Sprintf("included-is-maximal-prefix:%v", len(blk.Evidence.Evidence) == maximal), fmt.Sprintf("near-boundary:%v", near))
+			if lib.WantSample(name) && near {
+				lib.Sample(name, map[string]interface{}{"height": h, "pending": len(pendingNow), "included": len(blk.Evidence.Evidence),
+					"evidence_bytes": got, "evidence_maxbytes": limit})
+			}
+			if got > limit {
+				t.Fatalf("height %d: the proposer put %d bytes of evidence (%d items) in its block, Evidence.MaxBytes=%d (pending: %d items)",
+					h, got, len(blk.Evidence.Evidence), limit, len(pendingNow))
+			}
+			if err := pool.ValidateBlock(st, blk); err != nil {
+				t.Fatalf("height %d: the proposer's own block is rejected: %v", h, err)
+			}
+			r := &ref{st: st, hist: b, strictAddr: true}
+			if ok, why := r.validate(cloneBlock(blk)); !ok {
+				t.Fatalf("height %d: reference rejects the proposer's block: %s", h, why)
+			}
+			if step == 1 {
+				break
+			}
+			// commit the proposer's block and propose once more: what was committed must not come back
+			plan := b.genPlan(t, "after", o, "")
+			plan.Evidence, plan.Params, plan.Txs = nil, nil, nil
+			if err := b.advanceWith(plan, blk); err != nil {
+				t.Fatalf("the proposer's block could not be applied: %v", err)
+			}
+			for _, e := range blk.Evidence.Evidence {
+				b.evSeen[string(e.Hash())] = true
+			}
+		}
+	})
+}
